@@ -78,6 +78,21 @@ theorem limit_zero_rejects_all (n : Nat) (sched : List Nat) : inFlight (run sys 
   have := inflight_le_limit 0 (Int.le_refl 0) n sched
   omega
 
+/-- THE GAUGE IS A HEAD COUNT, at every instant of every schedule and for every limit (also negative = unlimited):
+    0 ≤ gauge ≤ number of callers — it can neither go negative (a double decrement) nor exceed the callers that
+    exist (a double increment) -/
+theorem gauge_between_zero_and_callers (m : Int) (n : Nat) (sched : List Nat) :
+    let c := run sys (init m n) sched
+    0 ≤ c.shared.gauge ∧ c.shared.gauge ≤ (n : Int) := by
+  have h := inv_all_schedules sys (fun c => GInv m c.shared c.locals ∧ c.locals.length = n)
+    (fun c i l s' l' hc hi hs => ⟨hc.1.step hi hs, by simp only [List.length_set]; exact hc.2⟩) sched (init m n)
+    ⟨GInv.init m n, by simp [init]⟩
+  have h1 := h.1.gauge
+  have h2 := h.1.len
+  have h3 : (run sys (init m n) sched).locals.countP inRegion ≤ (run sys (init m n) sched).locals.length := List.countP_le_length
+  have h4 := h.2
+  show 0 ≤ (run sys (init m n) sched).shared.gauge ∧ (run sys (init m n) sched).shared.gauge ≤ (n : Int)
+  omega
 /-- ROOM FOR EVERYBODY: when the limit is at least the number of callers, NOBODY is ever refused — under every
     schedule (the counterpart of `limit_zero_rejects_all`; a throttle that refuses below its limit, e.g. one that
     compares with `≥`, or reads the gauge twice, breaks this) -/
